@@ -2252,6 +2252,65 @@ func (lg *ledger) subFacts(cs []diffC) []diffC {
 			// exact relation when b is known relative to a by a constant is covered by the two above for our uses
 		}
 	}
+	return lg.sumFacts(out)
+}
+
+// sumFacts: for v = a + i (both variables): a >= 0 and i >= 0 give v >= 0 and v >= a; and when i is known to be
+// below the length of x[a:] (the index of a range over the rest of x), v is below the length of x:
+// `for i := range xs[k:] { ... xs[k+i] ... }`.
+func (lg *ledger) sumFacts(cs []diffC) []diffC {
+	out := cs
+	var rests []*ssa.Slice
+	for _, blk := range lg.fn.Blocks {
+		for _, ins := range blk.Instrs {
+			if sl, ok := ins.(*ssa.Slice); ok && sl.Low != nil && sl.High == nil && sl.Max == nil {
+				if _, isC := sl.Low.(*ssa.Const); !isC {
+					if _, isStr := sl.X.Type().Underlying().(*types.Basic); isStr || isSliceType(sl.X.Type()) {
+						rests = append(rests, sl)
+					}
+				}
+			}
+		}
+	}
+	for _, blk := range lg.fn.Blocks {
+		for _, ins := range blk.Instrs {
+			bo, ok := ins.(*ssa.BinOp)
+			if !ok || bo.Op != token.ADD || !isIntType(bo.Type()) {
+				continue
+			}
+			if _, isC := bo.Y.(*ssa.Const); isC {
+				continue
+			}
+			if _, isC := bo.X.(*ssa.Const); isC {
+				continue
+			}
+			v := lg.key(bo)
+			for _, pr := range [][2]ssa.Value{{bo.X, bo.Y}, {bo.Y, bo.X}} {
+				a, i := pr[0], pr[1]
+				ab, ao := lg.term(a)
+				ib, io := lg.term(i)
+				aNonNeg := entails(cs, "0", ab, ao)
+				iNonNeg := entails(cs, "0", ib, io)
+				if aNonNeg && iNonNeg {
+					out = append(out, diffC{"0", v, 0})
+				}
+				if iNonNeg {
+					out = append(out, diffC{ab, v, -ao}) // a <= v
+				}
+				for _, sl := range rests {
+					lb, lo := lg.term(sl.Low)
+					if lb != ab || lo != ao {
+						continue
+					}
+					lenS := "len(" + lg.key(sl) + ")"
+					// i <= len(x[a:]) - 1  =>  a + i <= len(x) - 1   (x[a:] was taken without panicking: a <= len(x))
+					if entails(cs, ib, lenS, -1-io) {
+						out = append(out, diffC{v, "len(" + lg.key(sl.X) + ")", -1})
+					}
+				}
+			}
+		}
+	}
 	return out
 }
 
